@@ -61,7 +61,7 @@ MODELS = {
     'sts': Model(
         'httpx.header.HttpHeaderFieldValueSTS',
         [('max-age', '31536000'), ('includeSubDomains', None), ('preload', None)], ';',
-        axes=('case', 'ws', 'empty', 'order', 'quote', 'unknown'), quotable=('max-age',),
+        axes=('case', 'ws', 'empty', 'order', 'quote', 'unknown'), quotable=('max-age',), eq_ws=True,
         clause={'case': 'RFC 6797 6.1 (3): directive names are case-insensitive',
                 'ws': 'RFC 6797 6.1: *( ";" [ directive ] ) under the implied-LWS rule of RFC 2616 2.1',
                 'empty': 'RFC 6797 6.1: *( ";" [ directive ] ) - a directive between two ";" is optional',
@@ -216,6 +216,16 @@ MODELS.update({
         axes=('ws', 'order', 'unknown', 'same'),
         clause={'ws': 'RFC 8259 2', 'order': 'RFC 8259 1 / 4', 'unknown': 'Network Error Logging 4.1',
                 'same': 'the canonical spelling produced by compose is itself one of the variants'}),
+    # quoted-string values as the canonical form, so that each other deviation is also tried on top of quoting
+    'sts_quoted': Model(
+        'httpx.header.HttpHeaderFieldValueSTS', [('max-age', '"31536000"'), ('includeSubDomains', None)], ';',
+        axes=('case', 'ws', 'empty', 'order', 'unknown'), eq_ws=True,
+        clause={'all': 'RFC 6797 6.1: directive-value = token | quoted-string; implied *LWS between tokens (RFC 2616 2.1)'}),
+    'content_type_quoted': Model(
+        'httpx.header.HttpHeaderFieldValueContentType',
+        [('charset', '"utf-8"'), ('boundary', '"frontier"')], ';', prefix='multipart/mixed; ',
+        axes=('case', 'ws', 'order', 'unknown'),
+        clause={'all': 'RFC 9110 5.6.6 / 8.3.1 (see content_type)'}),
     'sts_zero': Model(
         'httpx.header.HttpHeaderFieldValueSTS', [('max-age', '0')], ';',
         axes=('case', 'ws', 'empty', 'quote', 'unknown', 'same'), quotable=('max-age',),
@@ -550,7 +560,7 @@ def block(where: int, char: int) -> bool:
         alone, _ = type(reference[where]).parse_immutable(('%s: %s\r\n' % (name, value)).encode('ascii'))
         return deep_eq(alone, reference[where])
     # the field type becomes one the library does not know: the other fields stay, this one keeps name and value
-    changed = 'X' + chr(char) + '-' + name
+    changed = ('X' + chr(char) + '-' + name) if mode == 'renamed' else (name + '-' + chr(char) + 'x')
     lines[where] = (changed, value)
     try:
         variant = _parse_block(_block_text(lines))
@@ -689,15 +699,18 @@ def shards(tier, seed):
     windows = [ALNUM[low:low + 8] for low in range(0, len(ALNUM), 8)]
     if not thorough:
         rng.shuffle(wheres)
-        wheres = wheres[:3]
-    for where in wheres:
+        wheres = wheres[:4]
+    for index, where in enumerate(wheres):
         for window in (windows if thorough else [[48, 90, 97, 122]]):
-            out.append(Shard(MOD, 'block', 'block/renamed/%d/%s' % (where, chr(window[0])),
-                             {'MODE': 'renamed', 'WLO': where, 'WHI': where + 1, 'CHARS': window},
-                             600 if thorough else 90, group='block/renamed',
-                             bounds='header block of %d fields (%s): field %d renamed to an unknown name (symbolic '
-                                    'character in %r): kept as an unparsed field with the same value, all other fields '
-                                    'unchanged' % (len(BLOCK), names, where, ''.join(chr(item) for item in window))))
+            for mode in (('renamed', 'renamed_suffix') if thorough else (('renamed', 'renamed_suffix')[index % 2],)):
+                out.append(Shard(MOD, 'block', 'block/%s/%d/%s' % (mode, where, chr(window[0])),
+                                 {'MODE': mode, 'WLO': where, 'WHI': where + 1, 'CHARS': window},
+                                 600 if thorough else 90, group='block/' + mode,
+                                 bounds='header block of %d fields (%s): field %d renamed to an unknown name (%s, symbolic '
+                                        'character in %r): kept as an unparsed field with the same value, all other '
+                                        'fields unchanged' % (len(BLOCK), names, where,
+                                                              'X?-<name>' if mode == 'renamed' else '<name>-?x',
+                                                              ''.join(chr(item) for item in window))))
     out.append(Shard(MOD, 'explore_concrete', 'all_deviations_native', {}, kind='concrete',
                      bounds='every deviation of every axis of every model over alphanumeric name characters, natively'))
     return out
